@@ -130,9 +130,14 @@ def read_policy_from_file(path):
             result[name] = {'preset': policy}
         else:
             invalid_sections = sections - policy_sections - object_types
+            if invalid_sections:
+                raise ValueError(
+                    "Policy '{}' contains an invalid section named: "
+                    "{}".format(name, invalid_sections.pop())
+                )
             raise ValueError(
-                "Policy '{}' contains an invalid section named: "
-                "{}".format(name, invalid_sections.pop())
+                "Policy '{}' mixes policy sections with object "
+                "types.".format(name)
             )
 
     return result
